@@ -29,4 +29,76 @@ CHECKS = {
         undecided="that generation never hangs; acceptance by the real gcc / LLVM verifier; implicit exceptions beyond the family",
     ),
 }
+CHECKS.update({
+    "C01": dict(
+        text="Structural necessary conditions of the numerical property, decided on every emitted evaluate/compute kernel of the "
+        "family for all inputs (operand/store addressing by provenance typing, term/loop agreement, dense cover, monomial agreement "
+        "with exact rational coefficients, lattice order) plus axis-space typing of every order conversion and identifier-template "
+        "unification in the Python source. Numerical equality itself is not decided.",
+        technique="static analysis of emitted kernel IR (provenance typing, term expansion, polynomial comparison) + a D/L axis-space type system and template unification over the Python AST",
+        design_ref="DESIGN.md section 3 C01",
+        engine="K+S",
+        undecided="numerical equality with sum-of-products for all values; invariance under floating-point re-association; anything beyond the enumerated family",
+    ),
+    "C09": dict(
+        text="Axis-space typing (dimension order vs level order vs permutation) of tensor.py/_cffi_ownership.py and all order "
+        "conversions, canonical-structure dataflow, mapping-consumption, validation-dominates-construction and pickling "
+        "writer/reader agreement.",
+        technique="custom type system over the Python AST (D/L/Perm spaces) + structural dataflow / dominance checks",
+        design_ref="DESIGN.md section 3 C09",
+        engine="S",
+        undecided="value identity of summed duplicates / pickled floats (arithmetic)",
+    ),
+    "C10": dict(
+        text="Who-may-enter-kernel (single call site of the compiled pointer), must-pass-through by statement dominance "
+        "(signature.bind, per-argument checks, per-index dimension cross-check with iteration-coverage domain), Problem/make_problem rejections.",
+        technique="call-site enumeration + statement-level dominance + iteration-coverage analysis over the Python AST",
+        design_ref="DESIGN.md section 3 C10",
+        engine="S",
+        undecided="that cffi itself rejects non-cdata arguments",
+    ),
+    "C11": dict(
+        text="Operator layer only (values are C01): dunder table, symbolic instantiation of the synthesised assignment templates "
+        "(element-wise / einsum forms up to index renaming), shape guards dominating evaluation, format rules as truth tables, "
+        "axis typing of the @ format rule.",
+        technique="AST table extraction + symbolic template instantiation + truth-table evaluation + axis-space typing",
+        design_ref="DESIGN.md section 3 C11",
+        engine="S",
+        undecided="numerical values (delegated to C01)",
+    ),
+    "C12": dict(
+        text="Grammar read from the parsita definitions (levels, fold direction, operator mapping), required parenthesisation vs "
+        "deparse's isinstance tuples, format printer vs grammar alternatives, literal closure via regex ASTs, exception escape of "
+        "parser callbacks, rejection coverage and sibling identity.",
+        technique="grammar/printer agreement by AST extraction, regex-AST inspection and exception-escape analysis",
+        design_ref="DESIGN.md section 3 C12",
+        engine="S",
+        undecided="nothing beyond the recorded findings F9-F11",
+    ),
+    "C13": dict(
+        text="Ownership structure that makes every del/gc/pickle history safe: exactly-once hand-over typestate in "
+        "TensorMethod.__call__, slots wrapped by ffi.gc = slots kernels fill with malloc'ed memory (K rule on every kernel), "
+        "lifetime anchoring in the struct's holder, who-may-free.",
+        technique="typestate / post-dominance / who-may-call checks over the Python AST + slot agreement on emitted kernel IR",
+        design_ref="DESIGN.md section 3 C13",
+        engine="S+K",
+        undecided="all del/gc/pickle interleavings and CPython/cffi finaliser ordering (history quantifier)",
+    ),
+    "C14": dict(
+        text="Necessary-condition check of the lock/ownership discipline: FFI.compile under the module-level lock, shared-state "
+        "inventory, fresh engine per compiled module, re-entrancy of TensorMethod.__call__.",
+        technique="lock-scope, shared-state inventory and def-use checks over the Python AST",
+        design_ref="DESIGN.md section 3 C14",
+        engine="S",
+        undecided="all thread interleavings; thread-safety of cffi/llvmlite/CPython internals (schedule quantifier)",
+    ),
+    "C15": dict(
+        text="Enumeration of every hash-order-observing construct on the generation path against a confirmed-benign table with "
+        "machine-checked side conditions, stable-set implementation, purity of the generation path, cache-key completeness, CLI dataflow.",
+        technique="typed dataflow enumeration of order-observing sites + purity/effect analysis + cache-key field analysis (ast/inspect)",
+        design_ref="DESIGN.md section 3 C15",
+        engine="S",
+        undecided="byte-equality across processes of llvmlite's own printing (outside the repository)",
+    ),
+})
 PENDING = {}
